@@ -29,11 +29,12 @@ class FuncTable:
     """dict-like `.get(name)`: functions of the home unit first, then external definitions found through the
     whole-engine call graph (the defining TU is loaded on demand from the AST cache)."""
 
-    def __init__(self, home, graph):
+    def __init__(self, home, graph, opaque_tus=()):
         self.home = home
         self.graph = graph
         self.units = {home.tu: home}
         self.where = {}
+        self.opaque = set(opaque_tus)     # functions defined there are never inlined (they are the event vocabulary)
 
     def unit_of(self, tu):
         if tu not in self.units:
@@ -46,7 +47,7 @@ class FuncTable:
             self.where[name] = self.home.tu
             return fn
         key = self.graph.globals.get(name)
-        if key is None:
+        if key is None or key[0] in self.opaque:
             return default
         u = self.unit_of(key[0])
         fn = u.funcs.get(name)
@@ -65,15 +66,15 @@ class FuncTable:
 
 
 class _CrossUnit:
-    def __init__(self, home, graph):
+    def __init__(self, home, graph, opaque_tus=()):
         self.tu = home.tu
-        self.funcs = FuncTable(home, graph)
+        self.funcs = FuncTable(home, graph, opaque_tus)
         self.vars = home.vars
         self.ir = home.ir
 
 
-def cross_unit(home, graph):
-    return _CrossUnit(home, graph)
+def cross_unit(home, graph, opaque_tus=()):
+    return _CrossUnit(home, graph, opaque_tus)
 
 
 # ----------------------------------------------------------------------------------------------------------------
